@@ -164,24 +164,32 @@ def keyfn(which, tol, deep):
     log = []
     d, f = _decorated(which, tol, deep, [], rawmap())
     if which == 'keygen':
-        return (lambda v: d(v)), None, log
+        kf = lambda v: d(v)
+        kf.by_keyword = lambda v: d(x=v)
+        return kf, None, log
     wraw = d(f)
     d2, f2 = _decorated(which, tol, deep, log, picklemap())
-    return (lambda v: wraw.key(v)), d2(f2), log
+    kf = lambda v: wraw.key(v)
+    kf.by_keyword = lambda v: wraw.key(x=v)
+    return kf, d2(f2), log
 
 
 @deal.ensure(lambda which, tol, deep, v1, v2, result: result['raised'] is None, message='key_never_fails: rounding never makes a valid call fail')
 @deal.ensure(lambda which, tol, deep, v1, v2, result: result['raised'] is not None or
              result['same_key'] == loose_eq(*[(o_deep if deep else o_simple)(v, tol) if tol is not None else v for v in (v1, v2)]),
              message='key_from_rounded_arguments: calls share a key exactly when their arguments round to the same values')
+@deal.ensure(lambda which, tol, deep, v1, v2, result: result['raised'] is not None or result['stateless'],
+             message='key_is_stateless: the same call gets the same key every time it is made, passed positionally or by keyword')
 @deal.ensure(lambda which, tol, deep, v1, v2, result: result['raised'] is not None or result['received_original'],
              message='function_sees_original_arguments: the wrapped function receives the caller\'s own objects')
 def keypair_c(which, tol, deep, v1, v2):
     kf, w, log = keyfn(which, tol, deep)
-    out = {'raised': None, 'same_key': None, 'received_original': True}
+    out = {'raised': None, 'same_key': None, 'received_original': True, 'stateless': True}
     try:
         k1, k2 = kf(v1), kf(v2)
         out['same_key'] = (k1 == k2)
+        kw1 = kf.by_keyword(v1)
+        out['stateless'] = (kf(v1) == k1) and (kf.by_keyword(v1) == kw1) and (kf.by_keyword(v1) == kw1) and (kw1 == k1)
         if w is not None:
             w(v1)
             out['received_original'] = bool(log) and log[-1][0] is v1
